@@ -732,17 +732,37 @@ func earlyFactoryTable(c *core.Ctx, l *lifecycleRoles, maxLen int) (rs rows, run
 				proxies = append(proxies, p)
 				return absint.Tuple{p, absint.Nil{}}
 			}
+			pick := func(et types.Type) absint.Value {
+				switch {
+				case core.NamedOf(et) == metaT:
+					return meta
+				case isString(et):
+					return name
+				}
+				return f
+			}
 			var bind []absint.Value
 			for _, fv := range lit.FreeVars {
 				et := fv.Type().Underlying().(*types.Pointer).Elem()
-				switch {
-				case core.NamedOf(et) == metaT:
-					bind = append(bind, &absint.Cell{V: meta})
-				case isString(et):
-					bind = append(bind, &absint.Cell{V: name})
-				default:
-					bind = append(bind, &absint.Cell{V: f})
+				bind = append(bind, &absint.Cell{V: pick(et)})
+			}
+			if lit.Signature.Recv() != nil {
+				// a factory object: its fields hold what a literal would have captured
+				recv := absint.NewTok("earlyFactory", "factory-object")
+				rt := lit.Signature.Recv().Type()
+				if pt, ok := rt.Underlying().(*types.Pointer); ok {
+					rt = pt.Elem()
 				}
+				if st, ok := rt.Underlying().(*types.Struct); ok {
+					for i := 0; i < st.NumFields(); i++ {
+						ft := st.Field(i).Type()
+						if pt, ok := ft.Underlying().(*types.Pointer); ok && core.NamedOf(pt.Elem()) != nil {
+							ft = pt.Elem()
+						}
+						recv.Fields[st.Field(i).Name()] = pick(ft)
+					}
+				}
+				return t, []absint.Value{recv}, nil
 			}
 			return t, nil, bind
 		}
